@@ -212,6 +212,7 @@ func runC14(c *Check) {
 	c.duplicateLeafByEquality()
 	c.heapHeaderAllocColumns()
 	c.rebaseCurrentFirstMapping()
+	c.locationKeyIsAddress()
 }
 
 // signalFrameRemoval (R6): the binary CPU parser removes the frame at position 1 only from
